@@ -98,6 +98,14 @@ DetMonStep(m, E) ==
   XOnly({ CASE E.ev = "dframe" -> DFrameStep(m0, E)
             [] E.ev = "dreset" -> DResetStep(m0, E)
             [] E.ev = "dpanic" -> [m0 EXCEPT !.v = {"ANY:detector-panicked"}]
+            [] E.ev = "motioncfg" ->  \* the motion settings in force after the daemon's own config loading (ParseConfig +
+                                      \* LoadMotionConfig) vs. the generated config.toml: <<key, configured, in force>>
+                 [m0 EXCEPT !.v = (IF E.err # "" THEN {"ANY:valid-motion-settings-rejected"} ELSE {})
+                    \cup UNION { IF E.pairs[i][2] = E.pairs[i][3] THEN {}
+                                 ELSE IF E.pairs[i][1] \in {"dynamic-threshold", "temp-thresh", "temp-thresh-min", "temp-thresh-max"}
+                                      THEN {"C15:configured-threshold-settings-not-in-force"}
+                                 ELSE IF E.pairs[i][1] = "edge-pixels" THEN {"C08:configured-edge-pixels-not-in-force"}
+                                 ELSE {"C07:configured-motion-settings-not-in-force"} : i \in DOMAIN E.pairs }]
             [] E.ev = "sstart" ->     \* what reached storage with a (re)started file: the trigger's threshold, the detector's background
                  [m0 EXCEPT !.v = XIf(E.thresh # E.trig_thresh, "C15:recording-threshold-not-the-one-at-trigger")
                                   \cup XIf(E.bg # E.det_bg, "C15:recording-background-not-the-one-in-force")]
